@@ -53,6 +53,7 @@ def run_op(ctx, real_fn, faults=None, twin_fn=None, rep=None):
         except Exception as e:  # noqa: BLE001 - outcome is data for the oracle
             v, ok = e, False
     info = seam.end_op()
+    seam.begin_op([])  # oracle-side library calls must never see the operation's plan
     return {
         "ok": ok, "value": v, "draws": info["draws"], "fired": info["fired"], "log": info["log"],
         "interrupted": bool(fired), "line_events": line_events,
